@@ -63,6 +63,30 @@ def DS.hasCurrentValue (d : DS) : Bool := !d.vars.isEmpty && d.vars.all (·.valu
 def DS.currentValue (d : DS) : Option (List Rat) :=
   if d.hasCurrentValue then some (d.vars.flatMap (fun v => v.value.getD [])) else none
 
+/-! ### Views restricted to a list of variable names (in the *requested* order) -/
+
+/-- `get_lower_bounds(names)`: concatenation of the variables' lower bounds in the requested order. -/
+def DS.subLb (d : DS) (ns : List String) : List (Option Rat) :=
+  ns.flatMap (fun n => match d.find? n with | some v => v.lb | none => [])
+def DS.subUb (d : DS) (ns : List String) : List (Option Rat) :=
+  ns.flatMap (fun n => match d.find? n with | some v => v.ub | none => [])
+
+/-- `get_current_value(names)` (array): requested order; defined when each named variable has a value. -/
+def DS.subCur (d : DS) (ns : List String) : Option (List Rat) :=
+  if ns.all (fun n => match d.find? n with | some v => v.value.isSome | none => false) then
+    some (ns.flatMap (fun n => match d.find? n with | some v => v.value.getD [] | none => []))
+  else none
+
+def rangeOf (d : DS) (n : String) : List Nat :=
+  match d.ranges.find? (·.1 == n) with
+  | some r => (List.range (r.2.2 - r.2.1)).map (· + r.2.1)
+  | none => []
+
+/-- `get_variables_indexes(names, use_design_space_order)`. -/
+def DS.subIdx (d : DS) (ns : List String) (dsOrder : Bool) : List Nat :=
+  let names := if dsOrder then d.names.filter (fun n => ns.contains n) else ns
+  names.flatMap (rangeOf d)
+
 /-! ### Component-wise normalisation -/
 
 /-- Scale factor of a component: `ub - lb` (0 when `lb = ub`). Only used on normalisable ones. -/
